@@ -550,8 +550,8 @@ fn ext_case_variants() -> Vec<String> {
 }
 
 /// round 5 — HISTORY: a write that FAILS in serialization (second record's `Serialize` errors after the first record
-/// and part of the second were produced), then — same thread — ordinary writes. The failed write must be reported as
-/// an error, and nothing of it may reach a later object (a scratch buffer kept across calls would leak it): the
+/// and part of the second were produced), then — same thread — ordinary writes. Nothing of the failed write may reach
+/// a later object (a scratch buffer kept across calls would leak it): the
 /// following `one_jsonl` cases check their stored bytes against the independently serialised records.
 struct Bomb { id: i64, bomb: bool }
 impl Serialize for Bomb {
@@ -571,16 +571,11 @@ fn failed_write_then(cx: &mut Ctx, key: &str, n_good: usize) {
     let w = guarded(|| write_cloud_jsonl_vec(&st, B, key, &recs).map_err(|e| format!("{:?}", e.kind)));
     let i = cx.case(format!("ORACLE-ONLY failed-serialization-write {} good={n_good}", xs(key)), "-".into(), true);
     cx.count("jsonl:history=failed-serialization-first");
-    match &w {
-        Ok(Err(_)) => {}
-        Ok(Ok(n)) => cx.oracle_fail(i, "unserialisable-record-written-as-ok", format!("key {key:?}: Ok({n})")),
-        Err(m) => cx.oracle_fail(i, "unserialisable-record-panics", m.clone()),
-    }
-    if let Ok(b) = st.get_object(B, key) {
-        if !b.is_empty() && doc_codec(key) == "plain" && !b.ends_with(b"\n") {
-            cx.oracle_fail(i, "failed-write-left-a-torn-object", format!("key {key:?}: {} bytes stored, not newline-terminated", b.len()));
-        }
-    }
+    // C19 states nothing about a write that fails: its outcome is recorded, not judged. What IS judged is the property
+    // itself on the writes that follow (`one_jsonl`: stored bytes and round trip).
+    let _ = i;
+    cx.count(match &w { Ok(Err(_)) => "jsonl:failed-write=Err", Ok(Ok(_)) => "jsonl:failed-write=Ok", Err(_) => "jsonl:failed-write=PANIC" });
+    if st.get_object(B, key).is_ok() { cx.count("jsonl:failed-write-left-an-object"); }
 }
 
 fn one_jsonl<T: Record>(cx: &mut Ctx, key: &str, recs: &[T]) {
